@@ -26,7 +26,7 @@ func init() {
 					{{K: "map", Addr: 2, TI: 2}, {K: "map", Addr: 0, TI: 3}},
 				},
 				MaxBulk: 80, Keys: []int{12, 64, 300},
-				ValW:    valAll, MaxDepth: 2, MaxElems: 5, AcqW: [3]int{8, 1, 1}, NondetPct: 30,
+				ValW: valAll, MaxDepth: 2, MaxElems: 5, AcqW: [3]int{8, 1, 1}, NondetPct: 30,
 				Keep: 12, // some handed-back containers are kept and disposed of later, also by identifier without loading
 			})
 		},
@@ -79,7 +79,7 @@ func init() {
 					{{K: "arr", Addr: 1, TI: 1}, {K: "map", Addr: 1, TI: 2}},
 				},
 				MaxBulk: 40, Keys: []int{12, 64},
-				ValW:    valNested, MaxDepth: 3, MaxElems: 6, AcqW: [3]int{7, 2, 1}, Keep: 60,
+				ValW: valNested, MaxDepth: 3, MaxElems: 6, AcqW: [3]int{7, 2, 1}, Keep: 60,
 			})
 		},
 		Or: func(*Case) Oracles {
@@ -109,7 +109,7 @@ func init() {
 				},
 				Roots:   nil, // drawn per case (digester)
 				MaxBulk: 60, Keys: []int{10, 40, 200},
-				ValW: map[string]int{"u": 10, "s0": 3, "s1": 4, "s2": 4, "s3": 2, "s4": 2, "s5": 2, "s6": 1, "s7": 3, "some": 2, "arr": 2, "map": 2},
+				ValW:     map[string]int{"u": 10, "s0": 3, "s1": 4, "s2": 4, "s3": 2, "s4": 2, "s5": 2, "s6": 1, "s7": 3, "some": 2, "arr": 2, "map": 2},
 				MaxDepth: 1, MaxElems: 4, AcqW: [3]int{9, 1, 0},
 				CollLimits: []uint32{0, 1, 2, 3, 5, 255, 255},
 			})
@@ -132,7 +132,6 @@ func init() {
 		Rule: "case contains a collision-limit refusal, an external collision group with later removals, or an inline collision group",
 	})
 }
-
 
 // staleHandleAfterReattach (terminal scenario of C11): a detached container whose old handle is still
 // alive is attached elsewhere through ANOTHER handle (so that it is inlined there), then mutated through
